@@ -116,7 +116,7 @@ def _parse_ttl(field: str) -> Tuple[int, bool]:
     is_bad_ttl = False
     dist = 0
 
-    if field[-1] == "-":
+    if field.endswith("-"):
         is_bad_ttl = True
         raw_ttl = field[:-1]
 
@@ -143,7 +143,7 @@ def _parse_window(field: str) -> WindowSignature:
         type = WindowType.MSS if raw_window[1] == "s" else WindowType.MTU
         size = parse_number_in_range(raw_window[4:], min=1, max=1000)
 
-    elif raw_window[0] == "%":
+    elif raw_window.startswith("%"):
         type = WindowType.MOD
         size = parse_number_in_range(raw_window[1:], min=2, max=65535)
 
@@ -162,7 +162,7 @@ def _parse_options(field: str) -> Tuple[List[int], int]:
     raw_options = field.split(",") if field else []
 
     for raw_option in raw_options:
-        if raw_option[0] == "?":
+        if raw_option.startswith("?"):
             option = parse_number_in_range(raw_option[1:], min=0, max=255)
 
         elif raw_option.startswith("eol+"):
